@@ -3,6 +3,7 @@ package main
 import (
 	"go/ast"
 	"go/token"
+	"sort"
 	"strconv"
 	"strings"
 )
@@ -124,13 +125,30 @@ func init() {
 					orderOK = false
 				}
 			}
-			if strings.Join(seen, ",") != strings.Join(canon, ",") {
+			// the model tests the slots in the canonical order; the order only matters while some predicate is a substring
+			// test (two of them can fire on one tag) — and for the encoder's value branch, which falls through to the metadata ones
+			sortedSeen := append([]string(nil), seen...)
+			sort.Strings(sortedSeen)
+			sortedCanon := append([]string(nil), canon...)
+			sort.Strings(sortedCanon)
+			if strings.Join(sortedSeen, ",") != strings.Join(sortedCanon, ",") {
 				orderOK = false
+			} else if strings.Join(seen, ",") != strings.Join(canon, ",") {
+				anyContains := false
+				for _, sl := range slots {
+					if fs.Show[side.pre+sl] == "contains" {
+						anyContains = true
+					}
+				}
+				valueBeforeMeta := side.pre != "enc" || (len(seen) > 0 && (seen[0] == "tagValue" || (len(seen) > 1 && seen[0] == "tagKey" && seen[1] == "tagValue")))
+				if anyContains || !valueBeforeMeta {
+					orderOK = false
+				}
 			}
 		}
 		fs.Tri("loopOrder", TriOf(orderOK), conv)
 		// shape detector
-		fd := fm.Func("", "inspectCatalogModel")
+		fd := miscFunc(fm, "", "inspectCatalogModel")
 		if fd != nil {
 			src := fm.Str(fd)
 			keys := map[string]bool{}
